@@ -25,8 +25,17 @@ def mk_wcs(rnd, shape, proj='SIN'):
 
 def mk_region(rnd, w, shape, depth):
     r = Region(maxdepth=depth)
-    ra, dec = w.wcs_pix2world(rnd.uniform(0, shape[1]), rnd.uniform(0, shape[0]), 0)
-    r.add_circles(np.radians(float(ra)), np.radians(float(dec)), np.radians(rnd.uniform(0.6, 3.0)))
+    kind = rnd.random()
+    if kind < 0.6:
+        ra, dec = w.wcs_pix2world(rnd.uniform(0, shape[1]), rnd.uniform(0, shape[0]), 0)
+        r.add_circles(np.radians(float(ra)), np.radians(float(dec)), np.radians(rnd.uniform(0.6, 3.0)))
+    else:
+        # a region that contains the whole image except a hole in the middle (all four corners inside)
+        ra, dec = w.wcs_pix2world((shape[1] - 1) / 2.0, (shape[0] - 1) / 2.0, 0)
+        r.add_circles(np.radians(float(ra)), np.radians(float(dec)), np.radians(30.0))
+        h = Region(maxdepth=depth)
+        h.add_circles(np.radians(float(ra)), np.radians(float(dec)), np.radians(rnd.uniform(0.8, 1.6)))
+        r.without(h)
     return r
 
 
@@ -61,6 +70,9 @@ def table_failures(seed, negate, cols=('ra', 'dec')):
     rnd = random.Random(seed)
     reg = Region(maxdepth=7)
     reg.add_circles(np.radians(50.0), np.radians(-20.0), np.radians(5.0))
+    # cover the places a NaN position could be mistaken for: the poles and the RA=0 / dec=0 lines
+    reg.add_circles(np.radians([0.0, 0.0, 0.0, 50.0]), np.radians([90.0, -90.0, 0.0, 0.0]), np.radians([3.0, 3.0, 3.0, 3.0]))
+    reg.add_circles(np.radians([0.0, 0.0]), np.radians([-20.0, -25.0]), np.radians([4.0, 4.0]))
     n = rnd.randint(0, 12)
     ra = np.array([rnd.uniform(40, 60) for _ in range(n)])
     dec = np.array([rnd.uniform(-30, -10) for _ in range(n)])
@@ -91,6 +103,13 @@ def file_failures(seed):
         reg.save(os.path.join(d, "r.mim"))
         cube = rnd.random() < 0.7
         data = np.arange(np.prod(shape), dtype=np.float32).reshape(shape) if cube else np.arange(42, dtype=np.float32).reshape(6, 7)
+        # blank pixels that differ from plane to plane
+        if cube:
+            data[0, 1, 1] = np.nan
+            data[2, 4, 5] = np.nan
+        else:
+            data[1, 1] = np.nan
+        blank_before = np.isnan(data)
         hdu = fits.PrimaryHDU(data, header=w.to_header())
         hdu.writeto(os.path.join(d, "in.fits"))
         MIMAS.mask_file(os.path.join(d, "r.mim"), os.path.join(d, "in.fits"), os.path.join(d, "out.fits"))
@@ -98,9 +117,12 @@ def file_failures(seed):
         ref = np.array(data[0] if cube else data, dtype=float)
         ref = MIMAS.mask_plane(ref, w, reg)
         planes = out if cube else [out]
+        ref = np.array(np.zeros(shape[1:]), dtype=float)
+        ref = np.isnan(MIMAS.mask_plane(ref, w, reg))
         for k, pl in enumerate(planes):
-            if not np.array_equal(np.isnan(pl), np.isnan(ref)):
-                fails.append("plane %d of the written file is masked differently from mask_plane" % k)
+            want = ref | (blank_before[k] if cube else blank_before)
+            if not np.array_equal(np.isnan(pl), want):
+                fails.append("plane %d of the written file: blank pixels differ from (already blank) or (outside the region)" % k)
     finally:
         shutil.rmtree(d, ignore_errors=True)
     return fails
